@@ -265,6 +265,12 @@ def get_matcher(patterns, case_sensitive, accept_prefix=False):
                 new_pattern = "/".join(split[:i])
                 new_patterns.append(new_pattern)
                 new_patterns.append(new_pattern + "/")
+            for i, component in enumerate(split):
+                if "**" in component:
+                    # a recursive component may span any number of levels, so
+                    # every path below what precedes it can be a prefix
+                    new_patterns.append("/".join(split[:i] + ["**"]))
+                    break
             new_patterns.append(pattern)
         patterns = new_patterns
 
